@@ -363,6 +363,8 @@ func c17Case(g *Gen, p *ir.Program) {
 	a := pass.Allocator{Input: "x", Output: "z", Format: "t%d"}
 	var err error
 	n := "err"
+	var pristine *ir.Program
+	safe(func() { pristine = p.Clone() })
 	if pn := safe(func() { err = a.Execute(p) }); pn != "" {
 		n = "panic"
 	} else if err == nil {
@@ -371,6 +373,26 @@ func c17Case(g *Gen, p *ir.Program) {
 	g.Line("c17", dump, n)
 	if err != nil || n == "panic" || g.notesViolation() {
 		return
+	}
+	// other naming configurations declare the same number of temporaries (the count is a property of the
+	// program, not of the names): an empty output name, and long names
+	if g.N%4 == 1 && pristine != nil {
+		for _, alt := range []pass.Allocator{{Input: "x", Output: "", Format: "t%d"}, {Input: "input_value", Output: "result_value", Format: "temporary_%d"}} {
+			m := "err"
+			if pn := safe(func() {
+				q := pristine.Clone()
+				if e := alt.Execute(q); e == nil {
+					m = strconv.Itoa(len(q.Temporaries))
+				}
+			}); pn != "" {
+				m = "panic"
+			}
+			g.Count("other-names")
+			if m != n {
+				g.Notes = append(g.Notes, fmt.Sprintf("VIOLATION: program %s declares %s temporaries with names (x,z,t%%d) and %s with (%q,%q,%q)", dump, n, m, alt.Input, alt.Output, alt.Format))
+				return
+			}
+		}
 	}
 	// history (1): the allocated program is cloned and the clone is allocated — the clone declares what
 	// it needs, not what the original declared
